@@ -87,6 +87,7 @@ class C11(Check):
             "names": st.lists(name, min_size=1, max_size=4, unique=True),
             "members": st.lists(member, min_size=4, max_size=4),
             "appended": st.integers(0, 2),
+            "crc0": st.sampled_from([False, False, False, True]),
         })
 
     def examples(self, env):
@@ -104,7 +105,8 @@ class C11(Check):
                     if env.quick and i % 2:
                         continue
                     yield {"filters": filt, "filters2": filt if i % 3 == 0 else None, "header": header, "password": pw,
-                           "names": ["member-one.dat", "second-member.dat"], "members": [(200, i), (64, i + 1), (24, i + 2), (333, i + 3)], "appended": 1 if i % 3 == 0 else 0}
+                           "names": ["member-one.dat", "second-member.dat"], "members": [(200, i), (64, i + 1), (24, i + 2), (333, i + 3)], "appended": 1 if i % 3 == 0 else 0,
+                           "crc0": i % 4 == 1}
 
     def execute(self, case, env):
         out = Outcome()
@@ -120,6 +122,10 @@ class C11(Check):
         napp = min(case["appended"], max(0, len(names) - 1)) if case.get("filters2", 1) is not None or case["appended"] else 0
         nfirst = len(names) - napp
         model = [(n, marker(s, ln)) for n, (ln, s) in zip(names, case["members"])]
+        if case.get("crc0"):
+            # contents forged to CRC-32 0: where the member CRC is the only thing between a wrong key and the caller
+            # (Copy+7zAES, 7zAES alone) a digest of zero must still be checked
+            model = [(n, G.force_crc(d[:-4] if len(d) > 28 else d, 0)) for n, d in model]
         fam = G.chain_family(filters)
         pwclass = "empty" if pw == "" else ("astral" if any(ord(c) > 0xFFFF for c in pw) else ("nonascii" if any(ord(c) > 127 for c in pw) else "ascii"))
         out.nontrivial = True
